@@ -370,6 +370,42 @@ def rs_lit(s):
     return '"' + s.replace('\\', '\\\\').replace('"', '\\"').replace('\n', '\\n') + '"'
 
 
+def rs_lit_full(s):
+    """a Rust string literal for ANY text (control characters and non-ASCII as escapes)"""
+    out = []
+    for ch in s:
+        o = ord(ch)
+        if ch == '\\':
+            out.append('\\\\')
+        elif ch == '"':
+            out.append('\\"')
+        elif ch == '\n':
+            out.append('\\n')
+        elif ch == '\r':
+            out.append('\\r')
+        elif ch == '\t':
+            out.append('\\t')
+        elif o < 32 or o == 127 or o > 126:
+            out.append('\\u{%x}' % o)
+        else:
+            out.append(ch)
+    return '"' + ''.join(out) + '"'
+
+
+def doc_src(d):
+    """source text of one doc attribute. A plain string d is printed as `/// d` (the historical form);
+    a pair (form, text) prints text verbatim as `///text` (form 'line'), `/**text*/` (form 'block', may span
+    lines; the caller keeps `*/` and `/*` out of it and starts it with a blank) or `#[doc = "text"]` (form 'attr')."""
+    if isinstance(d, str):
+        return f'/// {d}'
+    form, text = d
+    if form == 'line':
+        return f'///{text}'
+    if form == 'block':
+        return f'/**{text}*/'
+    return f'#[doc = {rs_lit_full(text)}]'
+
+
 def serde_attrs(r, parts):
     """print serde(...) arguments either merged in one attribute or split over several, any order"""
     if not parts:
@@ -399,7 +435,7 @@ def field_attrs(r, f):
     if f.serialized_as is not None:
         out.append(f'#[typeshare(serialized_as = {rs_lit(f.serialized_as)})]')
     out += f.extra_attrs
-    docs = [f'/// {d}' for d in f.docs]
+    docs = [doc_src(d) for d in f.docs]
     r.shuffle(out)
     return docs + out if r.random() < 0.8 else out + docs
 
@@ -414,7 +450,7 @@ def print_fields(r, fields, indent, allow_pub=True):
 
 
 def print_item(r, it):
-    lines = [f'/// {d}' for d in it.docs]
+    lines = [doc_src(d) for d in it.docs]
     attrs = []
     if it.annotated:
         attrs.append('#[typeshare]' if it.typeshare_args is None else f'#[typeshare({it.typeshare_args})]')
@@ -460,7 +496,7 @@ def print_item(r, it):
                 va.append('#[typeshare(skip)]')
             va += v.extra_attrs
             for d in v.docs:
-                lines.append(f'    /// {d}')
+                lines.append('    ' + doc_src(d))
             for a in va:
                 lines.append(f'    {a}')
             if v.kind == 'unit':
